@@ -794,3 +794,105 @@ impl Tok {
         Ok(())
     }
 }
+
+// ---------------------------------------------------------------- documented preconditions
+
+/// Non-gate preconditions of an amount operation, from the library documentation,
+/// evaluated on the OBSERVED state `d` (balances, visible allowances, supply).
+pub fn base_preconditions(t: &Tok, r: &Resolved, d: &Dump) -> Result<(), &'static str> {
+    let now = t.e.ledger().sequence();
+    let a = r.amount;
+    match r.kind {
+        Kind::Mint => {
+            if a < 0 {
+                return Err("negative");
+            }
+            let Some(sum) = d.supply.checked_add(a) else { return Err("overflow") };
+            if t.flavor == Flavor::ExCapped && sum > EX_CAP {
+                return Err("cap");
+            }
+            Ok(())
+        }
+        Kind::Transfer | Kind::Burn => {
+            if a < 0 {
+                return Err("negative");
+            }
+            if d.bal[r.from.unwrap()] < a {
+                return Err("balance");
+            }
+            Ok(())
+        }
+        Kind::TransferFrom | Kind::BurnFrom => {
+            if a < 0 {
+                return Err("negative");
+            }
+            if d.allow[r.from.unwrap()][r.spender.unwrap()] < a {
+                return Err("allowance");
+            }
+            if d.bal[r.from.unwrap()] < a {
+                return Err("balance");
+            }
+            Ok(())
+        }
+        Kind::Approve => {
+            if a < 0 {
+                return Err("negative");
+            }
+            if r.live > t.e.ledger().max_live_until_ledger() {
+                return Err("live_until");
+            }
+            if a > 0 && r.live < now {
+                return Err("live_until");
+            }
+            Ok(())
+        }
+        Kind::List | Kind::Pause => Ok(()),
+    }
+}
+
+/// Which documented gate (list membership / pause) is closed for this operation, if any.
+pub fn closed_gate(t: &Tok, r: &Resolved, d: &Dump) -> Option<&'static str> {
+    let f = t.flavor;
+    if f.has_pause() && d.paused && matches!(r.kind, Kind::Mint | Kind::Transfer | Kind::TransferFrom | Kind::Burn | Kind::BurnFrom) {
+        return Some("paused");
+    }
+    if f.has_list() {
+        // `bad(i)`: holder i fails the vetting
+        let bad = |i: usize| if f.is_allow() { !d.listed[i] } else { d.listed[i] };
+        match r.kind {
+            Kind::Transfer | Kind::TransferFrom => {
+                if bad(r.from.unwrap()) {
+                    return Some("from");
+                }
+                if bad(r.to.unwrap()) {
+                    return Some("to");
+                }
+            }
+            Kind::Approve => {
+                if bad(r.from.unwrap()) {
+                    return Some("owner");
+                }
+            }
+            Kind::Burn | Kind::BurnFrom => {
+                if bad(r.from.unwrap()) {
+                    return Some("from");
+                }
+            }
+            _ => {}
+        }
+    }
+    None
+}
+
+pub fn kind_name(k: Kind) -> &'static str {
+    match k {
+        Kind::Mint => "mint",
+        Kind::Burn => "burn",
+        Kind::BurnFrom => "burn_from",
+        Kind::Transfer => "transfer",
+        Kind::TransferFrom => "transfer_from",
+        Kind::Approve => "approve",
+        Kind::List => "list",
+        Kind::Pause => "pause",
+    }
+}
